@@ -67,6 +67,18 @@ def check(c):
         a, b = t.transform(None, numpy.array([19., 31.]))[1], f.transform(None, numpy.array([19., 31.]))[1]
         if not numpy.array_equal(a, b):
             return dict(**{"class": "stale-cache"}, what="refit differs from fresh: %r vs %r" % (a, b))
+        # the SAME unseen values asked before and after a refit on labels that contain the old ones and more (an answer remembered per value
+        # would still be a valid label, silently the wrong one)
+        t = PermutationReciprocalTransformer(random_state=0, closest=True)
+        t.fit(None, numpy.array([0., 10., 20.]))
+        q = numpy.array([6., 13., 6.])
+        t.transform(None, q)
+        y3 = numpy.array([0., 4., 10., 14., 20.])
+        t.fit(None, y3)
+        f = PermutationReciprocalTransformer(random_state=0, closest=True).fit(None, y3)
+        a, b = t.transform(None, q)[1], f.transform(None, q)[1]
+        if not numpy.array_equal(a, b):
+            return dict(**{"class": "stale-cache"}, what="same unseen values after a refit: %r, a fresh instance gives %r" % (a.tolist(), b.tolist()))
         return None
     factory, kind, _, method = EST.configs()[c["name"]]
     X1, y1 = EST.target(d, kind, second=True)
